@@ -8,6 +8,7 @@
 #include "c14.c"
 #include "c04.c"
 #include "c02.c"
+#include "c18.c"
 
 int main(int argc,char **argv){
   if(argc<2){ fprintf(stderr,"usage: vharn <stream>\n"); return 2; }
@@ -17,6 +18,7 @@ int main(int argc,char **argv){
   if(!strcmp(argv[1],"c14")) return c14_main(argc-1,argv+1);
   if(!strcmp(argv[1],"c04")) return c04_main(argc-1,argv+1);
   if(!strcmp(argv[1],"c02")) return c02_main(argc-1,argv+1);
+  if(!strcmp(argv[1],"c18")) return c18_main(argc-1,argv+1);
   fprintf(stderr,"vharn: unknown stream %s\n",argv[1]);
   return 2;
 }
